@@ -1339,12 +1339,22 @@ def _ljust(ex, fn, args, kw, node):
 
 @builtin('str.isdigit', 'str.isalpha', 'str.isspace', 'str.isalnum')
 def _isdigit(ex, fn, args, kw, node):
-    s = fn.self_val
-    c = s.concrete()
+    s_ = fn.self_val
+    c = s_.concrete()
     which = fn.name.split('.')[1]
     if c is not None:
         return VBool(getattr(c, which)())
-    return VBool(z3.Bool(ex.fresh_name(which)))
+    f = z3.Function('str_' + which, z3.StringSort(), z3.BoolSort())
+    r = f(s_.t)
+    if which == 'isdigit':
+        # ASCII digits are digits; the converse does not hold (Unicode digits exist)
+        ex.assume(z3.Implies(z3.InRe(s_.t, z3.Plus(z3.Range('0', '9'))), r))
+        ex.assume(z3.Implies(r, z3.Length(s_.t) >= 1))
+        # for a single ASCII character the predicate is exactly [0-9]
+        ex.assume(z3.Implies(z3.And(z3.Length(s_.t) == 1, z3.StrToCode(s_.t) < 128),
+                             r == z3.InRe(s_.t, z3.Range('0', '9'))))
+        ex.used_assumptions.add('A-BUILTIN: str.isdigit() is an uninterpreted predicate that holds for ASCII digit strings (Unicode digits exist)')
+    return VBool(r)
 
 
 @builtin('str.encode')
@@ -1575,3 +1585,21 @@ def _chr(ex, fn, args, kw, node):
     t = ex.flat(v, 'int')
     ex.may_raise(z3.Or(t < 0, t > 0x10FFFF), 'ValueError', node)
     return VStr(z3.StrFromCode(t))
+
+
+@builtin('frozenset', 'set')
+def _frozenset(ex, fn, args, kw, node):
+    """A set with concrete elements (module constants such as frozenset('0123...'))."""
+    if not args:
+        return VPy(frozenset())
+    items = ex.iter_concrete(args[0], node)
+    if items is None:
+        ex.limit('set() of a symbolic iterable', node)
+    vals = []
+    for it in items:
+        it = ex.res(it)
+        c = it.concrete() if isinstance(it, (VStr, VInt)) else None
+        if c is None:
+            ex.limit('set() with symbolic elements', node)
+        vals.append(c)
+    return VPy(frozenset(vals))
